@@ -4,6 +4,7 @@ File: 61 bytes, 2-of-3, 3 segments of 22/22/17 bytes (AES-block and segment boun
 (a) EVERY (offset, size) of the catalogue below as a single read, on a fresh node (whose guess of the
     segment size is right, or too small: reader default 10 or 16 bytes against real 22) and as the
     second read on a node that already served another range; the same for literal files of 0, 1, 55 bytes;
+    reads of a 300-byte file starting at 14 offsets around AES block 10 (offset 160) and the segment boundaries;
 (b) every multiset of 2 (quick) / 3 (thorough) ranges from a 6-element catalogue issued concurrently
     on ONE node object, under every schedule with <= d deviations, where a deviation is a reordered
     delivery, an early timer, or a consumer reaction: pause at a write (resumed later as a
@@ -25,6 +26,7 @@ ASSUMPTIONS = [
 ]
 
 BASE = dict(k=2, n=3, seg=21, size=61, S=3, placement={"0": [0], "1": [1], "2": [2]})
+BIG = dict(k=2, n=3, seg=100, size=300, S=3, placement={"0": [0], "1": [1], "2": [2]})
 OFFS = [0, 1, 15, 16, 17, 21, 22, 23, 44, 60, 61, 62, 81]
 SIZES = [None, 0, 1, 15, 16, 17, 22, 45, 100]
 CONC = [[0, None], [0, 10], [5, 30], [22, 22], [40, 100], [5, 30]]   # overlapping, same segment, disjoint, identical
@@ -40,6 +42,12 @@ def single_cases():
             # boundaries) is smaller than the one the file was uploaded with
             for guess in (10, 16):
                 out.append(dict(BASE, guess=guess, groups=[[[off, sz]]]))
+    # a 300-byte file (3 segments of 100): reads that start beyond AES block 9 (offset 160), where the decimal and the
+    # hexadecimal spelling of the block number part ways
+    for off in (0, 95, 143, 144, 159, 160, 161, 175, 176, 200, 255, 256, 299, 300):
+        for sz in (None, 1, 17, 150):
+            out.append(dict(BIG, groups=[[[off, sz]]]))
+            out.append(dict(BIG, groups=[[[1, 1]], [[off, sz]]]))
     return out
 
 
